@@ -1074,6 +1074,7 @@ func (e *MetaCDC) newReplicateEntity(info *meta.TaskInfo) (*ReplicateEntity, err
 
 func (e *MetaCDC) startReplicateAPIEvent(replicateCtx context.Context, entity *ReplicateEntity) {
 	go func() {
+		defer verifSync("event-exit", "")
 		for {
 			select {
 			case <-replicateCtx.Done():
@@ -1146,6 +1147,7 @@ func (e *MetaCDC) startReplicateAPIEvent(replicateCtx context.Context, entity *R
 					}
 				}
 				metrics.APIExecuteCountVec.WithLabelValues(taskID, replicateAPIEvent.EventType.String()).Inc()
+				verifSync("event", taskID)
 			}
 		}
 	}()
@@ -1172,6 +1174,7 @@ func (e *MetaCDC) startReplicateDMLChannel(replicateCtx context.Context, entity 
 
 func (e *MetaCDC) startReplicateDMLMsg(replicateCtx context.Context, entity *ReplicateEntity, channelName string) {
 	go func() {
+		defer verifSync("dml-exit", channelName)
 		msgChan := entity.channelManager.GetMsgChan(channelName)
 		if msgChan == nil {
 			log.Warn("not found the message channel", zap.String("channel", channelName))
@@ -1304,6 +1307,7 @@ func (e *MetaCDC) startReplicateDMLMsg(replicateCtx context.Context, entity *Rep
 					_ = e.pauseTaskWithReason(taskID, "fail to pack replicate message, err:"+err.Error(), []meta.TaskState{})
 					return
 				}
+				verifSync("dml", channelName)
 			}
 		}
 	}()
